@@ -151,7 +151,7 @@ def check_layout(case, stats):
         # the same file below a deep directory: a path longer than any single-name limit (but well below PATH_MAX)
         deep = os.path.join(*(["d" * 60] * 6))
         os.makedirs(deep, exist_ok=True)
-        lp = os.path.join(deep, "f" * 40 + ".feature")
+        lp = os.path.join(deep, "f" * 40 + "-%d.feature" % os.getpid())
         with open(lp, "w", encoding="utf8", newline="") as f:
             f.write(text)
         try:
